@@ -42,7 +42,7 @@ def text_from_seed(nchars, seed):
 def expand(spec):
     """payload spec -> bytes.
 
-    ["hex", h] | ["rand", n, seed] | ["rep", n, seed] | ["zero", n]
+    ["hex", h] | ["rand", n, seed] | ["rep", n, seed] | ["zero", n] | ["echo", n, seed, dist]
     | ["text", nchars, seed] | ["str", s]
     """
     kind = spec[0]
@@ -57,6 +57,12 @@ def expand(spec):
         return (unit * (n // len(unit) + 1))[:n]
     if kind == "zero":
         return b"\0" * spec[1]
+    if kind == "echo":
+        # ["echo", n, seed, dist]: a random block of dist bytes repeated up to n bytes - every byte after the first
+        # block can be coded as a back-reference over exactly that distance (what an LZ77 window is for)
+        unit = random.Random(spec[2]).randbytes(max(1, spec[3]))
+        n = spec[1]
+        return (unit * (n // len(unit) + 1))[:n]
     if kind == "text":
         return text_from_seed(spec[1], spec[2]).encode("utf-8")
     if kind == "str":
